@@ -447,7 +447,11 @@ func (s *session) newManifest(rec *sessionRecord, v *version) (err error) {
 			if rerr := s.stor.Remove(fd); err != nil {
 				err = fmt.Errorf("newManifest error: %v, cleanup error (%v)", err, rerr)
 			}
-			s.reuseFileNum(fd.Num)
+			// The file number is not given back: a failed SetMeta may have left a
+			// pointer to this manifest behind (a pending CURRENT.<num>, or CURRENT
+			// itself when only the directory sync failed). While no file of that
+			// name exists the storage ignores such a pointer; re-creating
+			// MANIFEST-<num> would make it win before the new file is complete.
 		}
 	}()
 
